@@ -25,7 +25,8 @@ RULE = ('Data side: express with a harness validator returning every ValidResult
 ASSUMPTIONS = [
     'legacy front-end: validator finishing after the deadline may yield its verdict or a timeout (awaited outside wait_for by design)',
     'legacy default validators are sha256_digest_checker, which by design accepts packets whose SignatureType is not DigestSha256',
-    'a validator that raises is outside the stated quantifier (verdicts and latencies only)',
+    'a route validator that raises TimeoutError (e.g. a certificate fetch that timed out) has not accepted the Interest; other '
+    'exceptions from validators are outside the stated quantifier',
 ]
 
 V2_VERDICTS = ['FAIL', 'TIMEOUT', 'SILENCE', 'PASS', 'ALLOW_BYPASS']
@@ -43,7 +44,7 @@ def _verdict_obj(fe, v):
 
 
 def _accepting(fe, v):
-    return v in ('PASS', 'ALLOW_BYPASS') if fe == 'v2' else bool(v)
+    return v in ('PASS', 'ALLOW_BYPASS') if fe == 'v2' else bool(v)      # 'RAISE_TIMEOUT' (a raising validator) accepts nothing
 
 
 # ---- Data side ----------------------------------------------------------------------------------------------
@@ -165,6 +166,8 @@ def interest_item(sim, fe, it, r, idx):
                 if slow:
                     await asyncio.sleep(0.03)
                 log.append((tag + '-end', vl.now_ms()))
+                if verdict == 'RAISE_TIMEOUT':
+                    raise TimeoutError('certificate fetch timed out')
                 return _verdict_obj(fe, verdict)
         else:
             async def v(nm, sig):
@@ -181,6 +184,14 @@ def interest_item(sim, fe, it, r, idx):
         verdict = rv[1] if slow else rv
         route_v = mk_validator('route', verdict, slow)
     app_v = it.get('app_validator', 'default')
+    if it.get('reattach'):
+        # an earlier registration on the same prefix, with a permissive validator, attached and removed again
+        if fe == 'v2':
+            vl.call(sim.app.attach_handler, prefix, lambda *a: log.append(('old-handler', vl.now_ms())), mk_validator('old', 'PASS', False))
+            vl.call(sim.app.detach_handler, prefix)
+        else:
+            vl.call(sim.app.set_interest_filter, prefix, lambda *a: log.append(('old-handler', vl.now_ms())), mk_validator('old', True, False))
+            vl.call(sim.app.unset_interest_filter, prefix)
     if fe == 'v2':
         vl.call(sim.app.attach_handler, prefix, handler_v2, route_v)
     else:
@@ -224,6 +235,10 @@ def interest_item(sim, fe, it, r, idx):
             want = (sigtype != 0) or not it.get('sigbad')
             consulted = None
     tag = f'{kind}/{dg}/rv={rv!r}/appv={app_v!r}'
+    if any(e[0] == 'old-handler' for e in log):
+        r.bad(f'C05/{fe}/interest/delivered-to-removed-handler', tag)
+    if any(e[0].startswith('old-') and e[0] != 'old-handler' for e in log) and not (delivered and False):
+        r.bad(f'C05/{fe}/interest/removed-validator-consulted', f'{tag} log={log}')
     if len(delivered) > 1:
         r.bad(f'C05/{fe}/interest/delivered-twice', tag)
     if bool(delivered) != want:
@@ -240,6 +255,8 @@ def interest_item(sim, fe, it, r, idx):
     if sim.receive_errors:
         r.bad(f'C05/{fe}/interest/receive-raised/{sim.receive_errors[0].split(":")[0]}', sim.receive_errors[0])
         sim.receive_errors.clear()
+    if verdict == 'RAISE_TIMEOUT':
+        sim.vl.collect_errors()       # the validator's own exception ending its task is not this check's business
     nontriv = needs and (dg != 'correct' or rv == 'absent' or isinstance(rv, list) or rv not in ('PASS', 'FAIL', True, False))
     return (fe, 'interest', kind, dg, repr(rv), repr(app_v), sigtype, bool(it.get('sigbad'))) if nontriv else ()
 
@@ -311,12 +328,20 @@ def _grid_items(fe):
             for l1, l2 in (('0', '0'), ('0', '1ms'), ('1ms', '0'), ('0', 'life+20')):
                 yield {'side': 'pair', 'subs': [{'verdict': v1, 'lat': l1}, {'verdict': v2, 'lat': l2, 'cbp': True}]}
     rvs = ['absent'] + list(verdicts) + [['slow', verdicts[0]], ['slow', 'PASS' if fe == 'v2' else True]]
+    if fe == 'v2':
+        rvs += ['RAISE_TIMEOUT', ['slow', 'RAISE_TIMEOUT']]
     for kind in ['plain', 'params', 'params+sig', 'sig']:
         digs = ['correct'] if kind == 'plain' else ['correct', 'digest-flipped', 'param-flipped', 'missing']
         for dg, rv in itertools.product(digs, rvs):
             base = {'side': 'interest', 'ikind': kind, 'digest': dg, 'route_validator': rv}
             if kind in ('params', 'params+sig') and rv in ('absent', verdicts[0], 'PASS', True):
                 yield dict(base, empty_params=True)
+            if kind != 'plain' and dg == 'correct' and rv in ('absent', verdicts[0]):
+                if fe == 'v2':
+                    yield dict(base, reattach=True)
+                else:
+                    for sigtype, sigbad in [(0, False), (0, True)]:
+                        yield dict(base, reattach=True, sigtype=sigtype, sigbad=sigbad)
             if fe == 'v2' or kind in ('plain', 'params') or rv != 'absent':
                 yield base
             else:
